@@ -185,11 +185,20 @@ def orFail {α : Type} : Option α → Except MErr α
 
 /-! ### clocks (`TestMarket::{just_,}passed_in_seconds`) -/
 
-/-- `passed_in_seconds`: `now.saturating_sub(clock.unwrap_or(now))`. -/
+/-- `passed_in_seconds`: `now.saturating_sub(clock.unwrap_or(now))`. The subtraction SATURATES (Nat
+subtraction here): a clock ahead of `now` reads as 0 seconds, exactly like an absent clock or a
+clock at `now` (`passedInSeconds_eq_zero_iff`). `just_passed_in_seconds` then moves the clock to
+`now` — backwards, if it was ahead. -/
 def passedInSeconds (now : Nat) (clock : Option Nat) : Nat :=
   match clock with
   | none => 0
   | some c => now - c
+
+theorem passedInSeconds_eq_zero_iff (now : Nat) (clock : Option Nat) :
+    passedInSeconds now clock = 0 ↔ clock = none ∨ ∃ c, clock = some c ∧ now ≤ c := by
+  cases clock with
+  | none => simp [passedInSeconds]
+  | some c => simp [passedInSeconds]; omega
 
 def Market.tick (m : Market) (secs : Nat) : Market := { m with now := m.now + secs }
 
@@ -490,5 +499,21 @@ def poolValue (W U : Nat) (m : Market) (pr : Prices) (kind : PnlFactorKind) (max
                                       | some iv => match toSigned W iv with
                                         | none => none
                                         | some siv => toI W (pv2 - siv)
+
+/-! ## a sample configuration (for witnesses) -/
+
+/-- `TestMarketConfig::<u64, 9>::default()` + `TestMarket::with_config` (divisor 1, funding
+adjustment 10 000), restricted to the fields of `MarketConfig`. -/
+def MarketConfig.test64 : MarketConfig :=
+  { swapImpact := ⟨2000000000, 4, 8⟩, swapFee := ⟨500000, 700000, 370000000, 0⟩,
+    positionImpact := ⟨2000000000, 1, 2⟩, orderFee := ⟨500000, 700000, 370000000, 0⟩,
+    distributeFactor := 1000000000, minPositionImpactPool := 1000000000, borrowingReceiverFactor := 370000000,
+    reserveFactor := 1000000000, oiReserveFactor := 1000000000, maxPnlDeposit := 600000000,
+    maxPnlWithdrawal := 300000000, maxPnlTrader := 500000000, maxPnlAdl := 500000000, minPnlAfterAdl := 0,
+    maxPoolAmount := 1000000000000000000, maxPoolValueForDeposit := 18446744073709551615,
+    maxOpenInterest := 18446744073709551615, ignoreOiForUsage := false, divisor := 1, fundingAdjustment := 10000 }
+
+/-- the empty market with a configuration (`TestMarket::new`). -/
+def Market.ofConfig (cfg : MarketConfig) : Market := { cfg := cfg }
 
 end Gmx
